@@ -42,6 +42,49 @@ def make_cmd_runner(name, cmd, prefix, oracle, reps_thorough=5, timing=True, sel
     return run
 
 
+def stress_runner(scn, oracle, race=False, scale_quick=1, scale_thorough=6, confirm=2):
+    """runner for `harness stress <scn>`: TRACE tie / search engine of a concurrency property. A violation must reproduce on
+    `confirm` further runs (other seeds) before it counts, because the monitors observe a real scheduler."""
+    name = "STRESS " + scn + (" (-race)" if race else "")
+    def run(ctx):
+        binary = os.path.join(ctx["build"], "harness-race" if race else "harness")
+        if race and not os.path.exists(binary):
+            return {"name": name, "ok": False, "broken": [{"kind": "BUILD", "name": name, "detail": "race-enabled harness was not built"}]}
+        scale = scale_quick if ctx["tier"] == "quick" else scale_thorough
+        if ctx.get("broken"):
+            scale = max(scale, 3)
+        def once(seed):
+            env = dict(os.environ, GORACE="halt_on_error=0")
+            try:
+                rc, out = _run([binary, "stress", scn, "-seed", str(seed), "-scale", str(scale)], timeout=1500, env=env)
+            except subprocess.TimeoutExpired:
+                return 1, "stress %s runs=0 violations={watchdog: 1} VIOLATION (timeout: deadlock?)" % scn, 0
+            races = out.count("WARNING: DATA RACE")
+            line = next((l for l in out.splitlines() if l.startswith("stress " + scn)), "stress %s produced no summary: %s" % (scn, out[-300:]))
+            return rc, line, races, out
+        r = once(ctx["seed"])
+        line, races = r[1], r[2]
+        full = r[3] if len(r) > 3 else ""
+        m = re.search(r"runs=(\d+)", line)
+        runs = int(m.group(1)) if m else 0
+        bad = (not line.endswith(" ok")) or races > 0
+        if bad and not race:
+            again = sum(1 for k in range(confirm) if not once(ctx["seed"] + 101 * (k + 1))[1].endswith(" ok"))
+            if again == 0:
+                bad = False
+                line += "  [a violation in the first run did not reproduce on %d further seeds: scheduling artefact of the monitor]" % confirm
+        res = {"name": name, "ok": not bad, "evaluations": runs, "nontrivial": runs, "traces": runs, "samples": [line[:600]], "violations": []}
+        if bad:
+            detail = line
+            if races:
+                i = full.find("WARNING: DATA RACE")
+                detail = full[i:i + 2500]
+            res["violations"].append({"kind": "counterexample", "obligation": name, "case": [detail], "oracle": oracle,
+                                      "replay_shell": ("{harness_race}" if race else "{harness}") + " stress %s -seed %d -scale %d" % (scn, ctx["seed"], scale)})
+        return res
+    return run
+
+
 def runner_blocking(ctx):
     """C05: real-time lower bound of the blocking acquire paths (three API entry points + the policy executor)."""
     reps = 1 if ctx["tier"] == "quick" else 5
@@ -292,4 +335,106 @@ PROPS["C13"] = {
         "text": "Lean 4 theorems over the retry delay model: every delay is non-negative and never extends past the remaining max duration (exact); the backoff state is min(scale(last), maxDelay) <= maxDelay and the k-th backoff delay is the k-fold iterate (backoff_sequence); non-decreasing given the stated IEEE fact; fixed delay exact; random delay is the draw in [min,max]; the delay function's value is used when it returns one; absolute jitter shifts by at most the jitter; the backoff state never depends on the jitter draws (jitter does not accumulate), for every sequence; the next attempt is not before the delay in the timed model. Tie: GEN for getDelay, getFixedOrRandomDelay, adjustForJitter, adjustForMaxDuration and the three util.Random* kernels (Generated = Model proved each run), DIFF of the real executor's delay sequences through the hook, real-time lower-bound scenarios.",
         "note": "Trusted: Lean kernel; translator; hook (calls the real getDelay with a stub attempt); native floats = Go floats; math/rand in [0,1); timers never early. Float facts needed by monotonicity/jitter-factor envelopes are hypotheses checked differentially.",
         "technique": "Lean 4 proof (exact integer envelope theorems, sequence induction) + regenerated-kernel tie + differential correspondence via hook + timing scenarios"},
+}
+
+CONC_ASSUME = ["the Go scheduler's interleavings are sampled (statistical), the model's are covered completely",
+               "user functions cooperate with cancellation and do not panic", "Go timers never fire early"]
+
+PROPS["C06"] = {
+    "props": "Failsafe.Props.C06", "ties": [], "kernels": [],
+    "facts": ["selects/bulkhead.AcquirePermit", "selects/bulkhead.AcquirePermitWithMaxWait", "selects/bulkhead.TryAcquirePermit",
+              "bodies/bulkhead:bulkhead.AcquirePermitWithMaxWait", "bodies/bulkhead:bulkhead.ReleasePermit",
+              "bodies/bulkheadexecutor:executor.PreExecute", "bodies/bulkheadexecutor:executor.PostExecute", "bodies/policyexecutor:BaseExecutor.Apply"],
+    "required_theorems": ["Failsafe.Props.C06.inflight_le_cap", "Failsafe.Props.C06.release_exactly_once", "Failsafe.Props.C06.refused_never_release",
+                          "Failsafe.Props.C06.quiescent_all_free"],
+    "diff": [COMPOSE_DIFF], "rule": COMPOSE_RULE + "; plus STRESS bulkhead: 1-3 permits, max wait {0, 0.3 ms, 5 ms}, 4x more concurrent executions than permits, sync/async, alone and under retry/timeout/hedge/fallback, context deadlines and timeouts striking while waiting or holding, a standalone permit held; monitors: in-flight <= capacity at every instant, all permits back after quiescence",
+    "runners": [stress_runner("bulkhead", "more executions in progress than the bulkhead's capacity, or permits lost/duplicated after all executions finished")],
+    "assumptions": CONC_ASSUME, "modelled": ["the semaphore channel and the select statements are modelled as atomic actions per branch"],
+    "manifest": {
+        "text": "Lean 4 theorems over an interleaving model with any number of executions and standalone callers: held = #holding + standalone <= capacity in every reachable state of every schedule (inductive invariant lifted over action lists); every admitted execution releases exactly once; refused or cancelled-while-waiting executions have no release enabled; all permits are back at quiescence. Tie: FACTS (select-branch tables: only semaphore-send branches return nil; PostExecute releases once and returns its argument; Apply has no exit between inner and PostExecute), DIFF of sequential stacks (free permits in the world line), STRESS monitors under real concurrency.",
+        "note": "Trusted: Lean kernel; fact extractor; harness monitors. Partial: the Go scheduler is sampled; channel/select semantics are modelled.",
+        "technique": "Lean 4 proof (inductive invariant, unbounded threads, all schedules) + structural facts + stress monitors"},
+}
+PROPS["C04"] = {
+    "props": "Failsafe.Props.C04", "ties": ["Failsafe.Tie.Breaker"],
+    "kernels": ["open_try", "halfopen_try", "halfopen_check", "closed_check", "halfopen_capacity"],
+    "facts": ["locks/circuitBreaker.TryAcquirePermit", "locks/circuitBreaker.RecordSuccess", "locks/circuitBreaker.RecordFailure", "locks/circuitBreaker.RecordResult",
+              "locks/circuitBreaker.RecordError", "bodies/circuitbreakerexecutor:executor.PreExecute", "bodies/circuitbreakerexecutor:executor.OnSuccess",
+              "bodies/circuitbreakerexecutor:executor.OnFailure", "bodies/policyexecutor:BaseExecutor.Apply", "bodies/policyexecutor:BaseExecutor.PostExecute"],
+    "required_theorems": ["Failsafe.Props.C04.open_rejects_all", "Failsafe.Props.C04.rejected_never_runs", "Failsafe.Props.C04.halfopen_inflight_le_capacity",
+                          "Failsafe.Props.C04.trial_returns_permit", "Failsafe.Props.C04.stale_record_breaks_bound_witness"],
+    "diff": [{"slice": "breaker", "n_quick": 150, "n_thorough": 1500, "seeds_thorough": 3, "n_search": 1500}],
+    "rule": "breaker slice (sequential, see C03) + STRESS breaker: per round a breaker with random thresholds behind the virtual clock; 6-15 concurrent gated executions (sync/async, alone or under fallback/timeout) race with the failures that open it; then 12 concurrent executions under a retry while open (clock held one ns before the delay): none may be invoked, all fail with ErrOpen; then capacity+2..5 concurrent gated trials after the delay: concurrently running trials <= capacity, all permits back if still half-open",
+    "runners": [stress_runner("breaker", "an open breaker admitted an execution before its delay elapsed, or more trials ran concurrently than the trial capacity, or a trial permit was lost")],
+    "assumptions": CONC_ASSUME + ["the half-open bound is claimed for schedules in which no execution admitted before the opening is still in flight (the property's caveat)"],
+    "modelled": ["thresholds are abstracted to a nondeterministic verdict in the interleaving model; their exact arithmetic is C03"],
+    "manifest": {
+        "text": "Lean 4 theorems over an interleaving model with any number of executions: an admission step taken while the breaker is open and its delay has not elapsed leaves the execution rejected (ErrOpen, never invoked) whatever the others do; in every reachable half-open state permits available + trials in flight = capacity (inductive invariant, all schedules under the property's caveat), so at most capacity trials run concurrently; a recorded trial returns its permit whatever the result; witness showing why the caveat is needed. Tie: GEN (open/half-open admission kernels), FACTS (every breaker method locks; PreExecute/OnSuccess/OnFailure bodies), sequential DIFF, STRESS with gated concurrent executions behind the virtual clock.",
+        "note": "Trusted: Lean kernel; translator/fact extractor; harness monitors; mutex semantics. Partial: scheduler sampled.",
+        "technique": "Lean 4 proof (inductive invariant, unbounded threads) + regenerated-kernel tie + structural facts + stress monitors"},
+}
+PROPS["C07"] = {
+    "props": "Failsafe.Props.C07", "ties": [], "kernels": [],
+    "facts": ["effects/timeoutexecutor:executor.Apply", "bodies/timeoutexecutor:executor.Apply", "bodies/timeoutexecutor:executor.IsFailure",
+              "bodies/execution:execution.Cancel", "bodies/execution:execution.CopyForCancellable"],
+    "required_theorems": ["Failsafe.Props.C07.timeout_exclusive", "Failsafe.Props.C07.timeout_safe", "Failsafe.Props.C07.timeout_not_early",
+                          "Failsafe.Props.C07.blocked_fn_times_out", "Failsafe.Props.C07.reach_closed_false", "Failsafe.Props.C07.reach_closed_true"],
+    "diff": [COMPOSE_DIFF],
+    "rule": COMPOSE_RULE + "; plus STRESS timeout: 2 ms limit, function durations far below / within +-200 us of the limit / far above / blocking until cancelled, alone, under a fallback, with bulkhead+limiter inside, async; listener counted again after a grace period; retry around the timeout with k blocking attempts (fresh limit per attempt)",
+    "runners": [stress_runner("timeout", "an execution through a Timeout ended with the inner result AND a listener call/cancellation, or with ErrExceeded without exactly one listener call and cancellation, or ErrExceeded before the limit elapsed")],
+    "assumptions": CONC_ASSUME, "modelled": ["atomic.Pointer CompareAndSwap, timer.Stop and the timer goroutine are modelled as atomic actions"],
+    "manifest": {
+        "text": "Lean 4 theorems over a finite interleaving model of one Timeout application (result cell, main path, timer callback, clock), checked for every interleaving inside the kernel (breadth-first closure + decide): when the call has returned and the timer side is quiet exactly one of the two outcomes holds (inner result, no listener, not cancelled | ErrExceeded, exactly one listener call, cancelled); at every instant at most one listener call and only with the timeout result; ErrExceeded never before the limit elapsed; a function that only returns on cancellation always ends in ErrExceeded. Tie: FACTS (listener and Cancel under the callback's successful CAS; main path CAS/Stop/PostExecute(Load)), sequential DIFF of stacks with timeouts, STRESS around the racing instant.",
+        "note": "Trusted: Lean kernel; fact extractor; monitors; Go timers never early. Partial: scheduler sampled.",
+        "technique": "Lean 4 proof (finite interleaving model closed and decided in the kernel) + structural facts + stress monitors"},
+}
+PROPS["C08"] = {
+    "props": "Failsafe.Props.C08", "ties": [], "kernels": [],
+    "facts": ["rootHasCancelFunc", "locks/execution.Cancel", "locks/execution.InitializeRetry", "locks/execution.RecordResult", "locks/execution.IsCanceledWithResult",
+              "bodies/execution:execution.Cancel", "bodies/execution:execution.InitializeRetry", "bodies/execution:execution.RecordResult",
+              "bodies/execution:execution.isCanceledWithResult", "bodies/result:executionResult.Cancel", "bodies/executor:executor.executeAsync",
+              "selects/retry.Apply", "selects/ratelimiter.acquirePermitsWithMaxWait", "selects/bulkhead.AcquirePermitWithMaxWait",
+              "bodies/retryexecutor:executor.Apply", "bodies/fallbackexecutor:executor.Apply", "bodies/hedgeexecutor:executor.Apply"],
+    "required_theorems": ["Failsafe.Props.C08.cancel_result_is_cause", "Failsafe.Props.C08.waits_wake_on_cancel",
+                          "Failsafe.Props.C08.closed_ctx", "Failsafe.Props.C08.closed_timeout", "Failsafe.Props.C08.closed_async"],
+    "diff": [],
+    "rule": "STRESS cancel: 7 stacks (retry; fallback>retry; retry>breaker; retry>hedge; fallback>retry>hedge; retry>rate limiter waiting; retry>full bulkhead waiting) x 4 sources (context cancel, context deadline, async Cancel, enclosing Timeout) x cancellation instant drawn over 0-1.5 ms (before the first attempt, inside the function, between attempts, during a policy's wait); monitors: error identifies the cause, enclosed fallback never applied, completes within 50 ms, at most one attempt starts after the cancellation",
+    "runners": [stress_runner("cancel", "a cancelled execution reported an error other than its cause, or applied a fallback enclosed by the cancellation, or kept running attempts / waiting after the cancellation")],
+    "assumptions": CONC_ASSUME + ["exactly one cancellation source is active per scenario (the property's quantifier)"],
+    "modelled": ["context propagation to child contexts, the mutex and channel close are modelled", "hedge/bulkhead/limiter waits are covered by FACTS (every wait has a cancellation branch) and the stress run"],
+    "manifest": {
+        "text": "Lean 4 theorems over a finite interleaving model of one cancellation source (context, Timeout, async Cancel) racing the retry loop with the shared cancel-result cell, decided in the kernel for every interleaving, with the source fact rootHasCancelFunc (extracted from executeAsync) as a model input: whenever the loop returns because of the cancellation the error identifies the cause, and no attempt starts once the context is done; a delay wait is left at once when the context is done; the previous (defective) shape is kept as a witness theorem. Fallback-under-cancel is C10. Tie: FACTS (lock regions, bodies of Cancel/InitializeRetry/RecordResult/isCanceledWithResult, every wait has a cancellation branch), STRESS over stacks x sources x instants.",
+        "note": "Trusted: Lean kernel; fact extractor; monitors; context semantics. Partial: scheduler sampled.",
+        "technique": "Lean 4 proof (finite interleaving model with a source fact as input, decided in the kernel) + structural facts + stress monitors"},
+}
+PROPS["C09"] = {
+    "props": "Failsafe.Props.C09", "ties": [], "kernels": [],
+    "facts": ["hedgeChanCap", "effects/hedgeexecutor:executor.Apply", "bodies/hedgeexecutor:executor.Apply", "selects/hedge.Apply", "bodies/hedge:config.Build",
+              "bodies/execution:execution.CopyForHedge", "bodies/execution:execution.CopyForCancellable"],
+    "required_theorems": ["Failsafe.Props.C09.attempts_le", "Failsafe.Props.C09.hedge_k_not_before", "Failsafe.Props.C09.none_after_accept",
+                          "Failsafe.Props.C09.at_most_one_send", "Failsafe.Props.C09.winner_produced_by_attempt", "Failsafe.Props.C09.cancellable_sent_at_once",
+                          "Failsafe.Props.C09.losers_cancelled_winner_not"],
+    "diff": [COMPOSE_DIFF],
+    "rule": COMPOSE_RULE + "; plus STRESS hedge: maxHedges 0-3, delays 0.3-0.8 ms, default and CancelIf conditions, per-attempt durations 0-1.5 ms or blocking (termination rule: a blocking attempt only if some finite attempt yields a cancellable result), every completion order the scheduler produces; monitors: attempts <= maxHedges+1, hedge k not before k delays, none after return, result produced by a finished attempt, non-cancellable only after all finished, losers cancelled and winner not at return",
+    "runners": [stress_runner("hedge", "a hedged execution started too many or too early attempts, returned a result no attempt produced, delivered a non-cancellable result early, or left a loser uncancelled / cancelled the winner")],
+    "assumptions": CONC_ASSUME + ["'accepted' = received by the coordinating loop"], "modelled": ["goroutines, atomics and the result channel are modelled as atomic actions"],
+    "manifest": {
+        "text": "Lean 4 theorems over an interleaving model of the hedge coordinator and any number n = maxHedges+1 of attempts, for every schedule and every outcome assignment (inductive invariant with 12 clauses lifted over action lists): at most n attempts are started; attempts started <= delay timers fired + 1; nothing starts after acceptance; at most one result is ever sent; the accepted result was produced by a finished attempt, a non-cancellable one only once all n attempts finished; a cancellable result is sent in the very step its attempt finishes; on return all other started attempts are cancelled and the winner is not. Tie: FACTS (Apply body/effects/select table, channel capacity, default cancel condition), sequential DIFF with an innermost hedge, STRESS with per-attempt durations.",
+        "note": "Trusted: Lean kernel; fact extractor; monitors. Partial: scheduler sampled; timers never early.",
+        "technique": "Lean 4 proof (inductive invariant, unbounded attempts, all schedules) + structural facts + stress monitors"},
+}
+PROPS["C15"] = {
+    "props": "Failsafe.Props.C15", "ties": [], "kernels": [],
+    "facts": ["rootHasCancelFunc", "effects/result:executionResult.record", "bodies/result:executionResult.record", "bodies/result:executionResult.Get",
+              "bodies/result:executionResult.Cancel", "bodies/executor:executor.executeAsync", "effects/executor:executor.executeSync", "effects/executor:executor.execute"],
+    "required_theorems": ["Failsafe.Props.C15.future_protocol", "Failsafe.Props.C15.closed_once", "Failsafe.Props.C15.isDone_imp_result",
+                          "Failsafe.Props.C15.closed_imp_isDone", "Failsafe.Props.C15.get_stable", "Failsafe.Props.C15.reach_closed"],
+    "diff": [COMPOSE_DIFF],
+    "rule": COMPOSE_RULE + " (a quarter of the runs go through GetWithExecutionAsync: async = sync); plus STRESS future: all four async entry points, 1-16 concurrent readers (half wait on Done, half poll IsDone), Cancel at a drawn instant; monitors: IsDone/Done only after the completion listener finished, all readers agree, Result()/Error() = Get(), ErrExecutionCanceled or the completed result after Cancel, same result as the synchronous execution",
+    "runners": [stress_runner("future", "an ExecutionResult violated the future protocol (Done/IsDone before the result or the listeners, readers disagreeing, wrong result after Cancel, or a result different from the synchronous execution)")],
+    "assumptions": CONC_ASSUME, "modelled": ["atomic stores and channel close are modelled as atomic actions; readers are read-only observers"],
+    "manifest": {
+        "text": "Lean 4 theorems over a finite model of the producer (listeners, store result, store done flag, close channel) interleaved with Cancel calls, decided in the kernel for every interleaving: Done is closed at most once; closed implies IsDone; IsDone implies the result is available and the completion listeners have run; the result cell is written exactly once, so every reader at every later instant gets the same values. Cancel attribution is C08 (same source fact). Async = sync: both entry points run the same execute (FACTS) and every compose DIFF case is run through either entry point at random against the same model. Tie: FACTS (record order, one record per async execution), DIFF, STRESS with concurrent readers.",
+        "note": "Trusted: Lean kernel; fact extractor; monitors; sync/atomic and channel-close semantics. Partial: scheduler sampled.",
+        "technique": "Lean 4 proof (finite interleaving model decided in the kernel) + structural facts + differential correspondence + stress monitors"},
 }
